@@ -125,6 +125,16 @@ CHECKS = {
              "same on the bundled registry (contexts and systems), a third checks that nothing done to a second registry changes the first.",
         note="Four known findings are excluded by construction/narrow class: units from define() missing in compatible-unit listings, definitions made inside a redefining context, base-units cache across context stacks, double prefixes. Deep copy is used to hand every question an untouched twin.",
         design="5/C13"),
+    "C14": dict(
+        technique="complete enumeration of every unit x every declared system against allowed-unit sets and exact factors from an independent definition reader; Hypothesis compound quantities, generated systems (both rule forms, power-of-root units) and model-based group/system edit histories checked against an own closure model",
+        text="For each of the ~390 multiplicative units and each of SI, mks, cgs, atomic, Planck, imperial, US and 'no system', get_base_units(system=), "
+             "to_base_units, ito_base_units and get_base_units after a default_system change must agree, use only the system's declared base units plus untouched "
+             "root units, preserve dimension and exact value (Fraction registry; 1e-9 for float-tainted units) and be idempotent. Compound quantities, "
+             "sys.<system>.<name> attribute resolution and dir(), generated systems with 'new' and 'new:old' rules (incl. liter/hectare/gallon/barn as new "
+             "base units) are sampled. Group graphs with 'using' chains undergo random add/remove-units/groups histories incl. shortcut-then-cut shapes and "
+             "system group edits; members, system members and group/system-restricted compatible units are compared with an own transitive closure after every edit; cyclic 'using' must be refused.",
+        note="Compound quantities under square-root based systems (Planck, atomic) with total exponent > 2 are skipped: intermediate float products underflow. A group using itself is accepted by pint and loops forever (not in the statement; never generated).",
+        design="5/C14"),
     "C20": dict(
         technique="complete enumeration of an independently curated table of ~260 standard values x spellings x {Fraction, float} registries (differential oracle: the table)",
         text="Each entry of data/standards.txt (SI and binary prefixes, SI units, defining constants, yard/pound multiples, US/imperial capacity, avoirdupois/"
